@@ -106,7 +106,11 @@ fn parent(path: Option<&str>) {
     let exe = std::env::current_exe().expect("exe");
     for c in &cases {
         let budget = Duration::from_millis(c["budget_ms"].as_u64().unwrap_or(20000));
-        let mut ch = Command::new(&exe)
+        // address-space limit for the child: a non-terminating parse allocates without bound
+        let mut ch = Command::new("sh")
+            .arg("-c")
+            .arg("ulimit -v 6291456; exec \"$0\" \"$@\"")
+            .arg(&exe)
             .arg("one")
             .arg(c.to_string())
             .stdout(Stdio::piped())
